@@ -245,7 +245,13 @@ func c01Run(w *fw.W, idx int) {
 	prof, pname := c01Profile(r, idx)
 	g := gen.New(r, prof)
 	var forms []*sx.N
-	if idx%5 == 4 {
+	if idx == 0 {
+		// a fixed program: the canonical instance of the let* shared-scope deviation
+		// (known finding), so that every run observes it whatever the seed
+		pname = "fixed:let*-closure"
+		forms = []*sx.N{sx.Call("let*", sx.L(sx.L(sx.Y("a"), sx.I(1)), sx.L(sx.Y("f"), sx.Call("lambda", sx.L(), sx.Y("a"))), sx.L(sx.Y("a"), sx.I(2))),
+			sx.Call("verif:probe", sx.QY("r"), sx.Call("funcall", sx.Y("f")), sx.Y("a")))}
+	} else if idx%5 == 4 {
 		pname = "builtin-sweep"
 		forms = c01Sweep(r, g)
 	} else {
